@@ -851,3 +851,65 @@ def contextmanager_exit_on_error(ctx, R, modules):
                     out.append(ctx.viol(R, fi, y, f"{fi.name}() is a generator-based context manager with work after the `yield` but no try/finally around it: when the body of the `with` raises, "
                                         "the generator is closed at the yield and the clean-up (leaving buffered mode and flushing, removing a backup ...) never runs", construct=k))
     return out
+
+
+def keyed_by_parameter(ctx, R, table):
+    """A memo / registry that must distinguish its entries by the full key it is given: membership tests, additions and look-ups on the container use the parameter
+    itself, not a reduced form of it (basename, lower-case, a prefix).  table: (function, container expression, parameter, why)."""
+    out = []
+    for q, cont, par, why in table:
+        fi = ctx.prog.funcs.get(q)
+        k = f"{q}|keyed-by:{par}"
+        if fi is None or par not in fi.params:
+            out.append(ctx.inc(R, fi, None, f"{q}: function or parameter {par} not found", construct=k))
+            continue
+        uses = []
+        for n in body_nodes(fi):
+            if isinstance(n, ast.Compare) and len(n.ops) == 1 and isinstance(n.ops[0], (ast.In, ast.NotIn)) and canon(n.comparators[0]).startswith(cont):
+                uses.append((n, n.left))
+            elif isinstance(n, ast.Call) and isinstance(n.func, ast.Attribute) and canon(n.func.value).startswith(cont) and n.func.attr in ("add", "setdefault", "get", "pop", "discard", "remove") and n.args:
+                uses.append((n, n.args[0]))
+            elif isinstance(n, ast.Subscript) and canon(n.value).startswith(cont):
+                uses.append((n, n.slice))
+        bad = None
+        for n, key in uses:
+            kv = common.inline_at(ctx, fi, key, n)
+            if canon(kv) != par:
+                bad = bad or (n, kv)
+        if not uses:
+            out.append(ctx.inc(R, fi, fi.node, f"no use of {cont} found", construct=k))
+        elif bad:
+            out.append(ctx.viol(R, fi, bad[0], f"`{canon(bad[0])[:50]}` keys {cont} by `{canon(bad[1])[:40]}`, a reduced form of `{par}`: {why}", construct=k))
+        else:
+            out.append(ctx.ok(R, fi, uses[0][0], f"{len(uses)} use(s) of {cont}, all keyed by `{par}` itself", construct=k))
+    return out
+
+
+def no_prefix_length_slicing(ctx, R, modules):
+    """`path[len(prefix) + c:]` assumes that `path` literally starts with `prefix` followed by exactly c more characters; with a trailing separator, a './'
+    or a differently normalised prefix the cut is off by one.  Paths are made relative with os.path.relpath.  One aggregated instance per module."""
+    out = []
+    for mq in modules:
+        n = 0
+        hit = None
+        for fi in ctx.prog.functions_of_module(mq):
+            for s in body_nodes(fi):
+                if isinstance(s, ast.Subscript) and isinstance(s.slice, ast.Slice):
+                    for bound in (s.slice.lower, s.slice.upper):
+                        if bound is None:
+                            continue
+                        for c in ast.walk(bound):
+                            if isinstance(c, ast.Call) and isinstance(c.func, ast.Name) and c.func.id == "len" and c.args and not isinstance(c.args[0], ast.Constant) \
+                                    and canon(c.args[0]) != canon(s.value) and (names_in(c.args[0]) & set(fi.params) or names_in(s.value) & set(fi.params)):
+                                n += 1
+                                pth = any(w in canon(s).lower() for w in ("path", "root", "dir", "prefix", "src", "dst", "fn"))
+                                if pth:
+                                    hit = hit or (fi, s)
+        k = f"{mq}|prefix-length-slicing"
+        if hit:
+            fi, s = hit
+            out.append(ctx.viol(R, fi, s, f"`{canon(s)[:60]}` cuts a path at the length of another path: when that prefix ends with a separator (or is spelled differently from the walked path) "
+                                "the cut is off by one character, existing entries are mis-identified", construct=k))
+        else:
+            out.append(ctx.ok(R, None, None, f"{mq}: no path is cut at the length of another path", construct=k, nontrivial=False))
+    return out
